@@ -229,7 +229,9 @@ def outcomeThunk (o : Outcome) : Unit → KD Nat := fun _ => do
 def catchesE1 : ExcKind → Option Nat
   | .other s =>
     if s.startsWith "E1:" then (s.drop 3).toString.toNat?
-    else if s.startsWith "E1d:" then (s.drop 4).toString.toNat?   -- derived from E1: caught by `E1 const &`
+    -- derived from E1: caught by `E1 const &`; the converter is handed the thrown object itself, so what it observes
+    -- (the virtual `code()`) is the derived class's answer `(d + 1) % 3`, not that of a sliced base copy
+    else if s.startsWith "E1d:" then (s.drop 4).toString.toNat?.map (fun d => (d + 1) % 3)
     else none
   | _ => none
 
